@@ -1040,6 +1040,11 @@ func (s *scanner) ScanBytes(accept func(b byte) bool) error {
 			empty = false
 		}
 		err := s.refill()
+		if err != nil && err != io.EOF {
+			// A latched read error leaves the buffer untouched; returning
+			// here keeps the loop from spinning on the consumed buffer.
+			return err
+		}
 		if err == io.EOF && !empty {
 			return nil
 		}
